@@ -32,6 +32,16 @@ class ResSeq:
         self.vectorised_tuple = vectorised_tuple
 
 
+class PhysBatch:
+    """what a vectorised prior transform returns for a whole batch: an array
+    with one row per point OR a dictionary of arrays (nautilus.Prior with
+    pass_dict, or a user callable). The code may only hand it to the
+    likelihood; its len() / indexing mean different things in the two cases"""
+
+    def __init__(self, rows):
+        self.rows = rows                  # Arr of Phys (ghost: row view)
+
+
 class ResRow:
     def __init__(self, phys):
         self.phys = phys                  # z3 term of sort Phys
@@ -58,7 +68,8 @@ def install(reg, G):
         return st.alloc(res, 'phys')
 
     def prior_method(ex, st, args, kw, node):
-        return transform_arr(ex, st, args[1])
+        # direct (vectorised) call on the whole batch
+        return PhysBatch(ex.deref(st, transform_arr(ex, st, args[1])))
     reg.lib['prior.unit_to_dictionary'] = prior_method
     reg.lib['prior.unit_to_physical'] = prior_method
 
@@ -70,13 +81,15 @@ def install(reg, G):
 
     def likelihood_of(ex, st, a):
         a = ex.deref(st, a)
+        if isinstance(a, PhysBatch):
+            return a.rows
         if isinstance(a, Arr) and a.k == 'Phys':
             return a
         raise OutsideSubset('likelihood argument {!r}'.format(a))
 
     def opaque_call(ex, st, f, args, kw, node):
         if f.what == 'prior':
-            return transform_arr(ex, st, args[0])
+            return PhysBatch(ex.deref(st, transform_arr(ex, st, args[0])))
         if f.what == 'likelihood':
             # vectorised call: one call with all rows
             a = likelihood_of(ex, st, args[0])
@@ -96,6 +109,17 @@ def install(reg, G):
             return ResSeq(a)
         raise OutsideSubset('map({!r}, ...)'.format(f), node)
     reg.lib['map'] = b_map
+    prev_len = reg.len_hook
+
+    def len_hook(ex, st, v, node):
+        if isinstance(v, PhysBatch):
+            raise OutsideSubset('len() of the value a vectorised prior '
+                                'transform returned (array or dictionary)',
+                                node)
+        if prev_len is not None:
+            return prev_len(ex, st, v, node)
+        return NotImplemented
+    reg.len_hook = len_hook
 
     def pool_map(ex, st, args, kw, node):
         # args: [pool, func, iterable]
